@@ -110,7 +110,7 @@ def presets(cmd):
 
 def lattice(cmd, dtype, tier):
     if cmd == "CvtFromFuzzy":
-        return LFZ
+        return LFZ if dtype == "float" else [F(-1), F(0), F(1)]  # integer-typed fuzzy data: the three integers of the fuzzy range
     if dtype == "int":
         return LI
     return LQ if tier == "quick" else LT
@@ -125,8 +125,7 @@ def arrays_of(lat, size):
 def cases(tier):
     for cmd in CMDS:
         n = len(presets(cmd))
-        dts = ("float",) if cmd == "CvtFromFuzzy" else ("float", "int")
-        for dt in dts:
+        for dt in ("float", "int"):
             for size in (2, 3, 4):
                 if tier == "thorough" and dt == "float" and size == 4:
                     for pi in range(n):
@@ -143,6 +142,8 @@ def cases(tier):
     for cmd in CMDS:
         if cmd != "CvtFromFuzzy":
             yield ("offset", cmd, tier)
+    for cmd in UNSIGNED_CMDS:
+        yield ("unsigned", cmd, tier)
     for cmd in CMDS:
         yield ("edited", cmd, tier)
 
@@ -207,6 +208,39 @@ def _run_offset(case):
                     sample = tag
             if len(viols) > 60:
                 viols = viols[:60]
+    return {"evals": evals, "nontrivial": evals, "judged": counters["judged"], "unspecified": counters["unspecified"], "viols": viols,
+            "outcomes": outcomes, "sample": sample}
+
+
+UNSIGNED_CMDS = CMDS
+
+
+def _run_unsigned(case):
+    """unsigned integer data (what a Positive Integer read may deliver), every array of 2..3 cells over {0, 1, 2, 5} + MISSING x every preset:
+    thresholds and control points above a cell value must not make the arithmetic wrap around"""
+    _, cmd, tier = case
+    viols = []
+    counters = {"judged": 0, "unspecified": 0}
+    outcomes = {}
+    evals = 0
+    sample = None
+    lat = [F(0), F(1)] if cmd == "CvtFromFuzzy" else [F(0), F(1), F(2), F(5)]
+    for size in (2, 3):
+        for cells in arrays_of(lat, size):
+            for params in presets(cmd):
+                arr = D.mk_array(cells, dtype="uint")
+                res = D.execute(cmd, [arr], params)
+                tag = {"cmd": cmd, "params": params, "cells": [str(c) for c in cells], "dtype": "uint"}
+                nv = len(viols)
+                oc = D.judge("C08", cmd, params, [cells], res, (size,), viols, tag, counters, V)
+                for v in viols[nv:]:
+                    v["key"] += ":unsigned-data"
+                k = "%s:unsigned:%s" % (cmd, oc)
+                outcomes[k] = outcomes.get(k, 0) + 1
+                evals += 1
+                sample = tag
+        if len(viols) > 60:
+            viols = viols[:60]
     return {"evals": evals, "nontrivial": evals, "judged": counters["judged"], "unspecified": counters["unspecified"], "viols": viols,
             "outcomes": outcomes, "sample": sample}
 
@@ -395,6 +429,8 @@ def run(case):
         return _relation(case)
     if case[0] == "inverse":
         return _inverse(case)
+    if case[0] == "unsigned":
+        return _run_unsigned(case)
     if case[0] == "offset":
         return _run_offset(case)
     return _run_cmd(case)
